@@ -4,7 +4,7 @@
 From Coq Require Import List Bool ZArith.
 From Coq.Strings Require Import Byte.
 Import ListNotations.
-From SV Require Import Text G_c03 C03_Model C03_Lemmas C03_Fts C03_Hits C03_Chain C03_Write C03_Cli C03_Session C03_Resolve C03_Dispatch.
+From SV Require Import Text G_c03 C03_Model C03_Lemmas C03_Fts C03_Hits C03_Chain C03_Write C03_Cli C03_Session C03_Resolve C03_Dispatch C03_Wround.
 
 (* the modelled chains are the regenerated priority lists FMTS_ALL, which start with FMTS *)
 Theorem C03_chains_pinned :
@@ -514,6 +514,34 @@ Example C03_witness_dispatch :
   dispatch_iter (true, (false, (true, false))) = PRead /\
   is_binary_handle false false true = true.
 Proof. exact witness_dispatch. Qed.
+
+(* ---- what sugar writes into an archive, sugar reads back: proved under a guard (ordinary name, member visible to *.* and
+   not named like an archive or gzip file), refuted without it (OPEN: pending fixes archnodot / archdir) *)
+Theorem C03_archive_roundtrip_partial : forall tmp name ext,
+  In ext KNOWN_ARCHIVE_EXTS -> roundtrip_guard tmp name ext = true -> readback_ok tmp name ext = true.
+Proof. exact archive_roundtrip_partial. Qed.
+Print Assumptions C03_archive_roundtrip_partial.
+
+Theorem C03_archive_roundtrip_refuted :
+  exists name ext, In ext KNOWN_ARCHIVE_EXTS /\ plain_name (name ++ dot :: ext) = true /\ readback_ok (bs "<T>"%bs) name ext = false.
+Proof. exact archive_roundtrip_refuted. Qed.
+Print Assumptions C03_archive_roundtrip_refuted.
+
+(* the tool option: sugar's own plugin does the job exactly for None and the empty text *)
+Theorem C03_tool_choice_spec : forall tool,
+  (tool_choice tool = TPlugin <-> tool = None \/ tool = Some []) /\
+  (tool_choice tool = TBiopython <-> tool = Some (bs "biopython"%bs)).
+Proof. exact tool_choice_spec. Qed.
+Print Assumptions C03_tool_choice_spec.
+
+Example C03_witness_wround :
+  roundtrip_guard (bs "<T>"%bs) (bs "dir.d/data.fasta"%bs) (bs "tar.gz"%bs) = true /\
+  readback_ok (bs "<T>"%bs) (bs "dir.d/data.fasta"%bs) (bs "tar.gz"%bs) = true /\
+  readback_ok (bs "<T>"%bs) (bs "x[1].fa"%bs) (bs "zip"%bs) = false /\
+  readback_ok (bs "<T>"%bs) (bs "data"%bs) (bs "zip"%bs) = false /\
+  readback_ok (bs "<T>"%bs) (bs ".hidden.fa"%bs) (bs "zip"%bs) = false /\
+  readback_ok (bs "<T>"%bs) (bs "x.fa.gz"%bs) (bs "zip"%bs) = false.
+Proof. exact witness_wround. Qed.
 
 (* non-vacuity: concrete contents satisfying the hypotheses, and the documented BLAST / MMseqs2 discriminator at work *)
 Example C03_witness_shapes :
